@@ -120,13 +120,13 @@ def quick_programs(seed=0, sample=40):
     return dedupe(ps)
 
 
-def thorough_programs(seed=0, sample=300):
+def thorough_programs(seed=0, sample=150):
     """Thorough tier: every kind alone, all ordered pairs of the quick alphabet (heavy kinds included, aligned too), every
     kind paired with the cheap partners in both orders, seeded sequences of 3-6 kinds."""
     alpha = [k for k in KINDS if k not in REJECTED]
     ps = singles() + dynamic_unions() + sandwiches() + after_dynamic() + pairs(QUICK)
     for k in alpha:
-        for q in CHEAP_PARTNERS + ["char", "inner", "d_char"]:
+        for q in CHEAP_PARTNERS + ["d_char"]:
             for seq in ((k, q), (q, k)):
                 if valid_sequence(seq) and not (k in HEAVY and q in HEAVY):
                     for e in ("<", ">"):
